@@ -98,3 +98,92 @@ def zero_one(var, n, offs, ctx):
         return {"status": ERROR, "detail": "outside encodable class: %s" % e}
     return {"status": HOLDS, "stats": stats, "validated_traces": validated, "solver_time_s": time.time() - t0,
             "witness_ok": stats["paths"] >= len(offs)}
+
+
+def huge_len_probe(qid, params, ctx):
+    """Lengths >= 2^32 cannot be swept, but a kernel that truncates its 64-bit length is caught cheaply: run it with
+    len = 2^32 + L over a lazily materialised all-symbolic region under a small instruction budget.  A correct
+    kernel cannot finish within the budget on the all-zero path (it must read 4 GiB); any path that RETURNS 0
+    having read fewer than len bytes is a violation (unread bytes are unconstrained, so they may be non-zero).
+    Bytes that are read are fixed to zero, bytes never read remain arbitrary."""
+    var = params["variant"]
+    t0 = time.time()
+    img = loader.build_image(ctx["repo"], [KERNELS[var]], ctx["scratch"])
+    func = "mem_zero_detect_" + var
+    stats = {"variables": 0, "clauses": 0, "paths": 0}
+    try:
+        for L in params["lows"]:
+            n = (1 << 32) + L
+            s = Setup(img, func)
+            base = s.region("buf", n, r=True, w=False, init=None, offset=params.get("off", 0))
+            s.args = [base, n]
+            st0 = s.initial_state()
+            reg = st0.mem.find(base, 1)
+            syms = {}
+
+            def lazy(addr, syms=syms, base=base):
+                # every byte that IS read is zero (so the kernel follows its all-zero path without forking);
+                # bytes never read stay unconstrained
+                syms[addr - base] = 0
+                return 0
+            reg.lazy = lazy
+            ex = Exec(img, z3.SolverFor("QF_BV"), max_steps=params.get("budget", 4000))
+            finals = ex.run(st0)
+            stats["paths"] += len(finals)
+            stats["variables"] += ex.n_insns
+            for st, out in finals:
+                if isinstance(out, Violation):
+                    if out.kind == "no-termination":
+                        continue      # expected: still reading after the budget
+                    return {"status": VIOLATED, "detail": "%s (len=2^32+%d): %s at %r" % (func, L, out, out.insn), "cex": {"len": n}, "replay_ok": None, "stats": stats}
+                ret = bv.extract(st.r["rax"], 31, 0)
+                ret0 = bv.eq(32, ret, 0)
+                if bv.b_is_c(ret0):
+                    ret0 = z3.BoolVal(ret0)
+                stats["clauses"] += 1
+                r, m = smt_check(st.path + [ret0])
+                if r == z3.sat:
+                    nread = len(syms)
+                    rep, rlog = replay_huge(img, func, n, ctx)
+                    return {"status": VIOLATED, "detail": "%s returned 0 (all zero) for len=2^32+%d after reading only %d of %d bytes: the 64-bit length is truncated | %s" % (func, L, nread, n, rlog),
+                            "cex": {"variant": var, "len": n, "bytes_read": nread}, "replay_ok": rep, "replay_log": rlog, "stats": stats}
+    except Unsupported as e:
+        return {"status": ERROR, "detail": "outside encodable class: %s" % e}
+    return {"status": HOLDS, "stats": stats, "solver_time_s": time.time() - t0, "witness_ok": stats["paths"] > 0}
+
+
+HUGE_C = r'''
+#include <stdio.h>
+#include <stdlib.h>
+#include <sys/mman.h>
+int FUNC(void *, size_t);
+int main(int argc, char **argv) {
+    size_t n = strtoull(argv[1], 0, 0);
+    unsigned char *p = mmap(0, n + 4096, PROT_READ | PROT_WRITE, MAP_PRIVATE | MAP_ANONYMOUS | MAP_NORESERVE, -1, 0);
+    if (p == MAP_FAILED) { printf("MMAPFAIL\n"); return 3; }
+    p[n - 1] = 1;                      /* one non-zero byte at the very end of the region */
+    int r = FUNC(p, n);
+    printf("RET %d\n", r);
+    return r == 0 ? 1 : 0;             /* returning 0 (all zero) is the violation */
+}
+'''
+
+
+def replay_huge(img, func, n, ctx):
+    import os
+    import subprocess
+    d = ctx["scratch"] + "/x86"
+    src = os.path.join(d, "huge_%s.c" % func)
+    exe = os.path.join(d, "huge_%s" % func)
+    open(src, "w").write(HUGE_C.replace("FUNC", func))
+    p = subprocess.run(["gcc", "-O1", "-w", src] + list(img.objs) + ["-o", exe], stdout=subprocess.PIPE, stderr=subprocess.PIPE)
+    if p.returncode != 0:
+        return None, "huge replay build failed"
+    try:
+        p = subprocess.run([exe, str(n)], stdout=subprocess.PIPE, stderr=subprocess.PIPE, timeout=300)
+    except subprocess.TimeoutExpired:
+        return None, "huge replay timed out"
+    out = p.stdout.decode()
+    if "RET" not in out:
+        return None, "huge replay unusable: %s" % out[-100:]
+    return p.returncode == 1, "native: non-zero byte at offset len-1, " + out.strip()
